@@ -29,6 +29,9 @@ inductive Defect where
   width, with the wrong number of operands or a repeated one (`Composite::add_gate` validates nothing), or a
   composite of width 0 -/
   | badComposite
+  /-- a `Loop` of ≥ 3 iterations whose body holds another `Loop` of ≥ 3 iterations: LaTeX underflows while it
+  computes the loop-header offsets -/
+  | nestedLoop
 deriving DecidableEq, Repr
 
 def Defect.tag : Defect → String
@@ -36,6 +39,7 @@ def Defect.tag : Defect → String
   | .measureAllLen => "measure-all-len" | .ctrlBetweenTargets => "ctrl-between-targets"
   | .condControlGeNq => "cond-control-ge-nq"
   | .badComposite => "bad-composite"
+  | .nestedLoop => "nested-loop"
 
 variable {P : Type}
 
@@ -43,12 +47,46 @@ def hasDup : List Nat → Bool
   | [] => false
   | x :: xs => xs.contains x || hasDup xs
 
+/-- `C g` is one of the NAMED controlled gates of the library (`CH CS CSdg CT CTdg CV CVdg CRX CRY CRZ CU1 CU2 CU3
+CCX CCZ CCRX CCRY CCRZ`); the generic `C<G>` has no export traits and cannot be put into a `Circuit` -/
+def isNamedC : GateTerm P → Bool
+  | .H | .S | .Sdg | .T | .Tdg | .V | .Vdg | .CX | .CZ => true
+  | .RX _ | .RY _ | .RZ _ | .U1 _ | .U2 _ _ | .U3 _ _ _ => true
+  | .C (.RX _) | .C (.RY _) | .C (.RZ _) => true
+  | _ => false
+
+mutual
+/-- no `Loop` of three or more iterations inside -/
+def noBigLoop : GateTerm P → Bool
+  | .Loop _ k _ _ body => decide (k < 3) && noBigLoopOps body
+  | .Kron a b => noBigLoop a && noBigLoop b
+  | .Composite _ _ ops => noBigLoopOps ops
+  | .C g => noBigLoop g
+  | _ => true
+def noBigLoopOps : OpList P → Bool
+  | .nil => true
+  | .cons g _ rest => noBigLoop g && noBigLoopOps rest
+end
+
+mutual
+/-- every `Loop` of ≥ 3 iterations has a body without such a loop -/
+def loopsOK : GateTerm P → Bool
+  | .Loop _ k _ _ body => loopsOKOps body && (decide (k < 3) || noBigLoopOps body)
+  | .Kron a b => loopsOK a && loopsOK b
+  | .Composite _ _ ops => loopsOKOps ops
+  | .C g => loopsOK g
+  | _ => true
+def loopsOKOps : OpList P → Bool
+  | .nil => true
+  | .cons g _ rest => loopsOK g && loopsOKOps rest
+end
+
 mutual
 /-- the gate terms a `Circuit` can hold, with well-formed bodies: library gates (the named controlled gates
 are `C …`), `Kron`, and `Composite` / `Loop` of positive width whose sub-gates are placed on distinct local
 indices below the width, each with its arity -/
 def gateOK : GateTerm P → Bool
-  | .C g => gateOK g
+  | .C g => isNamedC g
   | .Kron g0 g1 => gateOK g0 && gateOK g1
   | .Composite _ n ops => decide (0 < n) && opsOK n ops
   | .Loop _ _ _ n body => decide (0 < n) && opsOK n body
@@ -58,6 +96,10 @@ def opsOK (n : Nat) : OpList P → Bool
   | .cons g bits rest =>
     gateOK g && decide (Gate.nrBits g = bits.length) && !hasDup bits && bits.all (fun b => decide (b < n)) && opsOK n rest
 end
+
+theorem gateOK_of_isNamedC (g : GateTerm P) (h : isNamedC g = true) : gateOK g = true := by
+  unfold isNamedC at h
+  split at h <;> first | (simp [gateOK, isNamedC]; done) | (cases h)
 
 mutual
 /-- LaTeX: every `C g` inside the term, with the operands it receives, has its control strictly on one
@@ -82,7 +124,8 @@ def gateDefects (g : GateTerm P) (bits : List Nat) : List Defect :=
   (if gateOK g then [] else [.badComposite]) ++
   (if Gate.nrBits g ≠ bits.length then [.arity] else []) ++
   (if hasDup bits then [.dupQubits] else []) ++
-  (if Gate.nrBits g = bits.length ∧ !hasDup bits ∧ !ctrlOK g bits then [.ctrlBetweenTargets] else [])
+  (if Gate.nrBits g = bits.length ∧ !hasDup bits ∧ !ctrlOK g bits then [.ctrlBetweenTargets] else []) ++
+  (if loopsOK g then [] else [.nestedLoop])
 
 def cbitsDefects (cbits : List Nat) : List Defect := if cbits.any (64 ≤ ·) then [.cbitGe64] else []
 
@@ -102,10 +145,10 @@ def opDefects (nq : Nat) : COp P → List Defect
 
 /-- which defects matter to which consumer -/
 def Defect.exec : Defect → Bool
-  | .ctrlBetweenTargets | .condControlGeNq => false
+  | .ctrlBetweenTargets | .condControlGeNq | .nestedLoop => false
   | _ => true
 def Defect.latex : Defect → Bool
-  | .dupQubits | .controlsGt64 | .ctrlBetweenTargets | .badComposite => true
+  | .dupQubits | .controlsGt64 | .ctrlBetweenTargets | .badComposite | .nestedLoop => true
   | _ => false
 def Defect.openQasm : Defect → Bool
   | .arity | .controlsGt64 | .measureAllLen | .badComposite => true
